@@ -13,6 +13,7 @@ import Hy.Proofs.C18Gate
 import Hy.Proofs.C18Mux
 import Hy.Proofs.C18Mgr
 import Hy.Gen.App
+import Hy.Gen.C18Shape
 set_option linter.unusedSimpArgs false
 set_option linter.unusedVariables false
 namespace Hy.Props.C18
@@ -32,6 +33,12 @@ theorem const_socks :
     Gen.c18_socks_RepServerFailure = Socks5.repServerFailure ∧
     Gen.c18_socks_RepHostUnreachable = Socks5.repHostUnreachable ∧
     Gen.c18_socks_RepCommandNotSupported = Socks5.repCommandNotSupported := by decide
+
+/-- regenerated go/ast fact about the current mux.go: the buffer `(*muxListener).dispatch` reads the
+    protocol-detection byte into is not a field of the mux / a package-level variable (directly or
+    through a local alias) — every dispatch goroutine has its own byte, which is what the model's
+    per-connection `got b` / `pending b t` statuses assume -/
+theorem detect_buffer_not_shared : Gen.C18Shape.dispatchBufKind ≠ 2 := by decide
 
 /-! ## SOCKS5 -/
 section socks
